@@ -36,6 +36,10 @@ type z =
 module Nat :
  sig
   val eqb : nat -> nat -> bool
+
+  val leb : nat -> nat -> bool
+
+  val ltb : nat -> nat -> bool
  end
 
 module Pos :
@@ -298,6 +302,10 @@ val build : bool -> nref list -> stmt -> bst
 val block_stats : bst -> nat -> lstat list
 
 val edges_at_end : bst -> bool
+
+val entry_of : lstat -> nat
+
+val graph_ok : nat -> bst -> bool
 
 val reach_step : bst -> nat list -> nat list
 
